@@ -1,5 +1,5 @@
 (* Every setter of Model/AF.v refines its meaning on the logical adaptation field (Spec/AFSpec.v). *)
-From Gots Require Import Base.Prelude Model.Pcr Model.AF Spec.AFSpec Proofs.AFLists Proofs.AFRepr.
+From Gots Require Import Base.Prelude Model.Pcr Model.AF Spec.AFSpec Proofs.AFLists Proofs.AFRepr Proofs.PcrBytes.
 Import AF.
 
 (* canonical packet of a logical field *)
@@ -53,6 +53,23 @@ Proof. intros (HL & Hp & Ho & Hs & Ht & He) Hf. unfold fits, content_len in Hf.
 Lemma content_len_eq l : content_len l =
   1 + len (enc6 (l_pcr l)) + len (enc6 (l_opcr l)) + len (enc1 (l_splice l)) + len (encv (l_tpd l)) + len (encv (l_ext l)).
 Proof. unfold content_len, body. rewrite !len_app. lia. Qed.
+
+Lemma set_idx_at (A : bytes) x R i v : i = len A -> set_idx (A ++ x :: R) i v = Ok (A ++ v :: R).
+Proof. intros ->. unfold set_idx. rewrite len_app, len_cons.
+  replace (len A <? len A + (1 + len R)) with true by (symmetry; apply N.ltb_lt; lia).
+  rewrite upd_at by reflexivity. reflexivity. Qed.
+Lemma blit_full (x y : bytes) : len y = len x -> blit x 0 y = y.
+Proof. intros H. pose proof (blit_mid [] x [] y 0 eq_refl H) as B. cbn [app] in B. rewrite !app_nil_r in B. exact B. Qed.
+
+(* the common tail of SetTransportPrivateData / SetAdaptationFieldExtension *)
+Definition set_var (q : bytes) (fstart flen : N) (data : bytes) : Res bytes :=
+  let delta := (zlen data - (Z.of_N flen - 1))%Z in
+  let start := fstart + 1 in
+  let e := start + len data in
+  let? p1 := resizeAF q start delta in
+  let? _ := slice p1 start e in
+  let p2 := blit p1 start data in
+  set_idx p2 (start - 1) (w8 (len data)).
 
 Section Setters.
 Variables (h0 h1 h2 h3 : N) (l : laf) (pay : bytes).
@@ -559,5 +576,94 @@ Proof. unfold SetHasAdaptationFieldExtension. rewrite valid_p. cbn [bind]. rewri
     split; [|split; [exact Hwf|split; [exact Hfits|reflexivity]]].
     unfold cpk at 1. rewrite set_bit_pk5. fl8_at 7%nat false.
     apply recanon; try reflexivity. rewrite flags_fl8, E. reflexivity.
+Qed.
+
+(* ---- value setters ---- *)
+Lemma setsplice_ok v : v < 256 -> ok_out h0 h1 h2 h3 pay l (OSetSplice v) (SetSpliceCountdown p v).
+Proof. intros Hv. unfold SetSpliceCountdown. rewrite valid_p. cbn [bind].
+  destruct has_l as (_ & _ & HP & _). rewrite HP. clear HP.
+  pose proof Hwf as (WL & WP & WO & WS & WT & WE).
+  destruct (l_splice l) as [b|] eqn:E; cbn [isSome negb].
+  - rewrite scs_p. cbn [ok_out]. exists (set_splice l (Some v)).
+    split; [apply rel_nojunk; [reflexivity|discriminate|cbn [spec_step]; rewrite E; reflexivity]|].
+    split; [|split; [|split; [|reflexivity]]].
+    + unfold cpk at 1. rewrite pk_H6. unfold body. rewrite E. cbn [enc1].
+      replace (H6 h0 h1 h2 h3 L (flags l) ++ (Fp ++ Fo ++ [b] ++ Ft ++ Fe) ++ St ++ pay)
+        with ((H6 h0 h1 h2 h3 L (flags l) ++ Fp ++ Fo) ++ b :: (Ft ++ Fe ++ St ++ pay))
+        by (rewrite <- !app_assoc; reflexivity).
+      rewrite upd_at by (rewrite !len_app, len_H6; lia).
+      replace ((H6 h0 h1 h2 h3 L (flags l) ++ Fp ++ Fo) ++ v :: Ft ++ Fe ++ St ++ pay)
+        with (pk h0 h1 h2 h3 L (flags l) ((Fp ++ Fo ++ [v] ++ Ft ++ Fe) ++ St ++ pay))
+        by (rewrite pk_H6, <- !app_assoc; reflexivity).
+      apply recanon; try reflexivity.
+      * rewrite !flags_fl8. cbn [set_splice l_disc l_rai l_prio l_pcr l_opcr l_splice l_tpd l_ext]. rewrite E. reflexivity.
+      * rewrite !content_len_eq. cbn [set_splice l_pcr l_opcr l_splice l_tpd l_ext l_len]. rewrite E. reflexivity.
+    + unfold wf_laf. cbn [set_splice l_pcr l_opcr l_splice l_tpd l_ext l_len]. repeat split; try assumption; try lia; try apply WP; try apply WO.
+    + pose proof Hfits as F. unfold fits in *. rewrite content_len_eq in *.
+      cbn [set_splice l_pcr l_opcr l_splice l_tpd l_ext l_len]. rewrite E in F. exact F.
+  - cbn [ok_out]. apply rel_nojunk; [reflexivity|discriminate|cbn [spec_step]; rewrite E; reflexivity].
+Qed.
+
+Lemma insert_pcr6 b v : length b = 6%nat -> Pcr.insert_pcr b v = Ok (Pcr.pcr6 v).
+Proof. intros H. unfold Pcr.insert_pcr. unfold len. rewrite H. cbn [N.of_nat]. 
+  change (N.pos (Pos.of_succ_nat 5) <? 6) with false. cbv iota. f_equal. apply blit_full. unfold len. rewrite H. reflexivity. Qed.
+
+Lemma setpcr_ok v : v < PcrMax -> ok_out h0 h1 h2 h3 pay l (OSetPCR v) (SetPCR p v).
+Proof. intros Hv. unfold SetPCR. rewrite valid_p. cbn [bind].
+  destruct has_l as (HP & _). rewrite HP. clear HP.
+  pose proof Hwf as (WL & WP & WO & WS & WT & WE).
+  destruct (l_pcr l) as [b|] eqn:E; cbn [isSome negb].
+  - destruct WP as [Lb Bb]. assert (Lb6: len b = 6) by (unfold len; rewrite Lb; reflexivity).
+    assert (Le6: len (pcr_enc v) = 6) by reflexivity. rewrite os_p, E. cbn [enc6]. unfold pcrStart.
+    assert (Ep: p = H6 h0 h1 h2 h3 L (flags l) ++ b ++ ((Fo ++ Fs ++ Ft ++ Fe) ++ St ++ pay)).
+    { unfold cpk. rewrite pk_H6. unfold body. rewrite E. cbn [enc6]. rewrite <- !app_assoc. reflexivity. }
+    rewrite Ep at 1. rewrite (slice_mid _ b) by (rewrite ?len_H6; reflexivity). cbn [bind].
+    rewrite insert_pcr6 by exact Lb. cbn [bind ok_out]. rewrite pcr6_enc by exact Hv.
+    exists (set_pcr l (Some (pcr_enc v))).
+    split; [apply (rel_any _ []); [reflexivity|constructor|discriminate|cbn [spec_step]; rewrite E; reflexivity]|].
+    split; [|split; [|split; [|reflexivity]]].
+    + rewrite Ep. rewrite (blit_mid _ b _ (pcr_enc v)) by (rewrite ?len_H6; try reflexivity; unfold len; rewrite Lb; reflexivity).
+      rewrite <- pk_H6. rewrite (app_assoc (pcr_enc v)).
+      replace (pcr_enc v ++ Fo ++ Fs ++ Ft ++ Fe) with (body (set_pcr l (Some (pcr_enc v)))) by reflexivity.
+      apply recanon; try reflexivity.
+      * rewrite !flags_fl8. cbn [set_pcr l_disc l_rai l_prio l_pcr l_opcr l_splice l_tpd l_ext]. rewrite E. reflexivity.
+      * rewrite !content_len_eq. cbn [set_pcr l_pcr l_opcr l_splice l_tpd l_ext l_len enc6]. rewrite E. cbn [enc6].
+        rewrite Lb6, Le6. reflexivity.
+    + unfold wf_laf. cbn [set_pcr l_pcr l_opcr l_splice l_tpd l_ext l_len opt_bytes].
+      repeat split; try assumption; try lia; try apply WO. apply is_bytes_pcr_enc.
+    + pose proof Hfits as F. unfold fits in *. rewrite content_len_eq in *.
+      cbn [set_pcr l_pcr l_opcr l_splice l_tpd l_ext l_len enc6]. rewrite E in F. cbn [enc6] in F.
+      rewrite Lb6 in F. rewrite Le6. exact F.
+  - cbn [ok_out]. apply (rel_any _ []); [reflexivity|constructor|discriminate|cbn [spec_step]; rewrite E; reflexivity].
+Qed.
+
+Lemma setopcr_ok v : v < PcrMax -> ok_out h0 h1 h2 h3 pay l (OSetOPCR v) (SetOPCR p v).
+Proof. intros Hv. unfold SetOPCR. rewrite valid_p. cbn [bind].
+  destruct has_l as (_ & HP & _). rewrite HP. clear HP.
+  pose proof Hwf as (WL & WP & WO & WS & WT & WE).
+  destruct (l_opcr l) as [b|] eqn:E; cbn [isSome negb].
+  - destruct WO as [Lb Bb]. assert (Lb6: len b = 6) by (unfold len; rewrite Lb; reflexivity).
+    assert (Le6: len (pcr_enc v) = 6) by reflexivity. rewrite os_p, scs_p, E. cbn [enc6].
+    assert (Ep: p = (H6 h0 h1 h2 h3 L (flags l) ++ Fp) ++ b ++ ((Fs ++ Ft ++ Fe) ++ St ++ pay)).
+    { unfold cpk. rewrite pk_H6. unfold body. rewrite E. cbn [enc6]. rewrite <- !app_assoc. reflexivity. }
+    rewrite Ep at 1. rewrite (slice_mid _ b) by (rewrite ?len_app, ?len_H6; lia). cbn [bind].
+    rewrite insert_pcr6 by exact Lb. cbn [bind ok_out]. rewrite pcr6_enc by exact Hv.
+    exists (set_opcr l (Some (pcr_enc v))).
+    split; [apply (rel_any _ []); [reflexivity|constructor|discriminate|cbn [spec_step]; rewrite E; reflexivity]|].
+    split; [|split; [|split; [|reflexivity]]].
+    + rewrite Ep. rewrite (blit_mid _ b _ (pcr_enc v)) by (rewrite ?len_app, ?len_H6; try lia; unfold len; rewrite Lb; reflexivity).
+      replace ((H6 h0 h1 h2 h3 L (flags l) ++ Fp) ++ pcr_enc v ++ (Fs ++ Ft ++ Fe) ++ St ++ pay)
+        with (pk h0 h1 h2 h3 L (flags l) ((Fp ++ pcr_enc v ++ Fs ++ Ft ++ Fe) ++ St ++ pay))
+        by (rewrite pk_H6, <- !app_assoc; reflexivity).
+      apply recanon; try reflexivity.
+      * rewrite !flags_fl8. cbn [set_opcr l_disc l_rai l_prio l_pcr l_opcr l_splice l_tpd l_ext]. rewrite E. reflexivity.
+      * rewrite !content_len_eq. cbn [set_opcr l_pcr l_opcr l_splice l_tpd l_ext l_len enc6]. rewrite E. cbn [enc6].
+        rewrite Lb6, Le6. reflexivity.
+    + unfold wf_laf. cbn [set_opcr l_pcr l_opcr l_splice l_tpd l_ext l_len opt_bytes].
+      repeat split; try assumption; try lia; try apply WP. apply is_bytes_pcr_enc.
+    + pose proof Hfits as F. unfold fits in *. rewrite content_len_eq in *.
+      cbn [set_opcr l_pcr l_opcr l_splice l_tpd l_ext l_len enc6]. rewrite E in F. cbn [enc6] in F.
+      rewrite Lb6 in F. rewrite Le6. exact F.
+  - cbn [ok_out]. apply (rel_any _ []); [reflexivity|constructor|discriminate|cbn [spec_step]; rewrite E; reflexivity].
 Qed.
 End Setters.
